@@ -47,6 +47,7 @@ type Explorer struct {
 	KnownActive map[string]bool
 	SampleMax   int
 	Verbose     bool
+	Thorough    bool
 	TraceSMT    bool
 	Deadline    time.Time
 
